@@ -700,8 +700,8 @@ impl Property for C04 {
     }
     fn budget(&self, tier: Tier) -> (u32, usize) {
         match tier {
-            Tier::Quick => (16_000, 8),
-            Tier::Thorough => (600_000, 16),
+            Tier::Quick => (50_000, 8),
+            Tier::Thorough => (1_000_000, 16),
         }
     }
     fn run(&self, case: &CbCase) -> Report {
